@@ -108,8 +108,9 @@ impl Mul<f64> for Duration {
         let ten: f64 = 10.0;
 
         loop {
-            if (new_val.floor() - new_val).abs() < f64::EPSILON {
+            if new_val.floor() == new_val || p >= 38 {
                 // Yay, we've found the precision of this number
+                // (or reached 10^38, the largest power of ten that fits in an i128)
                 break;
             }
             // Multiply by the precision
